@@ -9,6 +9,15 @@ annotation columns of the written table.
 Input files carry random names (sub-directories, one file name in several directories) and are mentioned on the command line
 in random, mostly non-alphabetical order (case["names"]); a file may be mentioned twice.  The model takes files by position.
 
+Every input type a shipped method reads is generated, alone and mixed in one run: MaxQuant evidence, Percolator output in
+native (`PSMId`) or mokapot (`SpecId`) style PER FILE (case["mokapot"]), with or without the `-.X.-` flanks, FragPipe
+psm.tsv, Sage results, DIA-NN tsv reports (rows in the shape of props.C10 / Model/C10.lean RawRow; the files of the four
+non-native formats are written by the renderers of props.C10, imported).  The peptide->protein maps come from --fasta and the
+digestion flags, from --peptide_protein_map files instead (case["map_files"]: the digest's dicts written to files, the
+database itself not given — annotations are then empty), from neither (no method needs a map), or both are given and
+--fasta wins (case["maps_from"]).  FragPipe / Sage PEPs are computed by the model in double precision (Cli.roundD), so the
+peptide lists are compared exactly as for the other formats.
+
 The real run is observed from outside (recorders of harness/pipeline.py, re-installed here around EVERY method's
 `get_protein_group_results` call — pipeline.py itself is not touched): shuffles, min-cut answers, float scores per
 competition, the float rescue cutoff, md5 keys; additionally the peptide list and the three scalar arguments each call
@@ -51,7 +60,18 @@ from lib import rat, unrat
 BASE_HEADERS = ["Protein IDs", "Majority protein IDs", "Peptide counts (unique)", "Best peptide", "Number of proteins",
                 "Q-value", "Score", "Reverse", "Potential contaminant"]
 ANN_HEADERS = ["Protein names", "Gene names", "Fasta headers"]
-FLAG_OF_INPUT = {"mq": "--mq_evidence", "perc": "--perc_evidence"}
+FLAG_OF_INPUT = {"mq": "--mq_evidence", "perc": "--perc_evidence", "fragpipe": "--fragpipe_psm", "sage": "--sage_results",
+                 "diann": "--diann_reports"}
+ALL_INPUTS = ("mq", "perc", "fragpipe", "sage", "diann")   # every evidence flag a shipped method reads
+REMAP_INPUTS = ("mq", "perc")                              # input types for which remapping methods are shipped
+# FragPipe `PeptideProphet Probability` cells (PEP = 1 - p + 1e-16 in doubles: the model rounds after both operations,
+# Cli.roundD, so arbitrary doubles may be drawn), Sage `posterior_error` cells (log10 of the PEP; integer exponents, for
+# which the platform's pow is asserted to be correctly rounded: props.C10.pow_grid_ok), DIA-NN PEP cells (literals
+# pandas' parser reads as float() does: props.C10.pandas_grid_ok)
+FRAG_P = [1.0, 0.9999, 0.999, 0.99, 0.95, 0.9, 0.75, 0.5, 0.0, 1023 / 1024, 1019 / 1024, 973 / 1024]
+FRAG_P_WEAK = [0.99, 0.95, 0.9, 0.75, 0.5, 0.0, 973 / 1024]
+SAGE_X = [0, -1, -2, -3, -4, -6, -7, -8]
+SAGE_X_WEAK = [0, -1, -2, -3, -4]
 DIG_FLAGS = [("enzyme", "--enzyme"), ("digestion", "--digestion"), ("min_length", "--min-length"), ("max_length", "--max-length"),
              ("cleavages", "--cleavages"), ("special_aas", "--special-aas")]
 # protein-group thresholds (the values of pipeline.THRESHOLDS: no reachable estimate (D+1)/(T+1) rounds onto them, or dyadic), weighted
@@ -172,8 +192,8 @@ def id_rule(flags, use_pseudo):
 
 def falls_back_to_pseudo_genes(case):
     """gene-level run on a database where at most half of the entries carry a gene name"""
-    if not case["flags"].get("gene_level"):
-        return False
+    if not case["flags"].get("gene_level") or not case["fasta"]:
+        return False  # without --fasta there are no annotations and no fall-back (get_protein_annotations: `{}, False`)
     rule = "uniprot" if case["flags"].get("use_uniprot") else "first"
     seen = {}
     for f in case["fasta"]:
@@ -230,18 +250,26 @@ def _spell(rng, pep):
     return pep[:i] + tok + pep[i:]
 
 
-def gen_case(rng, tier, only_inputs=("mq", "perc")):
+def gen_case(rng, tier, only_inputs=ALL_INPUTS):
+    """a command line: 1-3 shipped methods reading `only_inputs`, evidence of every input type they read, FASTA files and
+    digestion flags.  With all five input types allowed (the default) the command line may also supply the peptide->protein
+    maps by --peptide_protein_map files instead of --fasta, give neither (no method needs a map: the annotations are empty)
+    or both (--fasta wins); Percolator files are drawn in native or mokapot style PER FILE."""
     sm = shipped()
+    wide = set(only_inputs) == set(ALL_INPUTS)
     names = sorted(n for n, t in sm.items() if input_of(t) in only_inputs)
     # methods with a rescue step are the ones through which the two thresholds of the command line act differently
     names = names + [n for n in names if "rescued" in str(sm[n].get("grouping"))] * 2
+    if wide:  # one shipped method each: drawn as often as a Percolator / MaxQuant method family
+        names = names + [n for n in names if input_of(sm[n]) not in REMAP_INPUTS] * 2
     # --- methods: 1-3, weighted towards pairs that mix remapping and non-remapping methods and different inputs
     k = rng.choice([1, 1, 2, 2, 2, 3])
-    shared_map = len(only_inputs) > 1 and rng.random() < 0.2
+    remap_inputs = sorted(i for i in only_inputs if i in REMAP_INPUTS)
+    shared_map = len(remap_inputs) > 1 and rng.random() < 0.2
     if shared_map:
         # two remapping methods of DIFFERENT input types with different numbers of files and ONE digestion parameter
         # set: both must see the one map for each of their files, whatever the other did with the list
-        ia, ib = rng.sample(sorted(only_inputs), 2)
+        ia, ib = rng.sample(remap_inputs, 2)
         methods = [rng.choice([n for n in names if remaps(sm[n]) and input_of(sm[n]) == i]) for i in (ia, ib)]
         if rng.random() < 0.3:
             methods.insert(rng.randint(0, 2), rng.choice(names))
@@ -256,6 +284,14 @@ def gen_case(rng, tier, only_inputs=("mq", "perc")):
     inputs = sorted({input_of(sm[n]) for n in methods})
     if rng.random() < 0.15 and len(inputs) > 1 and not shared_map:
         inputs = inputs[:1]  # a method without its input file is skipped with a warning
+    # --- how the peptide->protein maps are supplied
+    maps_from = "fasta"
+    if wide:
+        t = rng.random()
+        if any(remaps(sm[n]) for n in methods):
+            maps_from = "mapfile" if t < 0.25 else "both" if t < 0.33 else "fasta"
+        else:  # no method needs a map: --fasta only feeds the annotation columns
+            maps_from = "none" if t < 0.35 else "mapfile" if t < 0.45 else "fasta"
     # --- database
     db = gen_cli.gen_database(rng)
     style = rng.choice(["plain", "desc", "uniprot", "uniprot"])
@@ -267,7 +303,7 @@ def gen_case(rng, tier, only_inputs=("mq", "perc")):
     n_files = {i: rng.choice([1, 1, 2, 3]) for i in inputs}
     n_sets = rng.choice([1] + [n_files[i] for i in inputs] * 2)
     if shared_map:
-        n_files = dict(zip((ia, ib), rng.choice([(2, 3), (2, 3), (2, 3), (3, 2), (1, 3)])))
+        n_files = dict(n_files, **dict(zip((ia, ib), rng.choice([(2, 3), (2, 3), (2, 3), (3, 2), (1, 3)]))))
         n_sets = 1
     psets, dig_flags = _param_sets(rng, n_sets)
     if flags["contains_decoys"]:
@@ -290,11 +326,18 @@ def gen_case(rng, tier, only_inputs=("mq", "perc")):
     use_pseudo = falls_back_to_pseudo_genes(case)
     rule = id_rule(flags, use_pseudo)
     maps = [truth_map(case, ps, rule) for ps in psets]
+    styles = []
     for inp in inputs:
         files = []
         for fi in range(n_files[inp]):
             own = maps[fi] if fi < len(maps) and len(maps) > 1 else maps[0]
             others = [m for m in maps if m is not own]
+            # header / peptide style of a Percolator file: decided per file by the parser (PSMId / SpecId header; flanks
+            # `-.X.-` on the first data row)
+            st = None
+            if inp == "perc":
+                st = {"mokapot": wide and rng.random() < 0.4, "flank": not (wide and rng.random() < 0.3)}
+                styles.append(st["mokapot"])
             cand = sorted(own)
             rng.shuffle(cand)
             rows = []
@@ -304,25 +347,29 @@ def gen_case(rng, tier, only_inputs=("mq", "perc")):
                 if rng.random() > (0.75 if target else 0.4):
                     continue
                 for _ in range(rng.choice([1, 1, 1, 2])):
-                    rows.append(_row(rng, inp, p, prots, PEP_GRID if target else PEP_GRID[:12]))
+                    rows.append(_row(rng, inp, p, prots, PEP_GRID if target else PEP_GRID[:12], st))
             ps_own = psets[fi] if fi < len(psets) and len(psets) > 1 else psets[0]
             if ps_own["digestion"] == "semi":  # semi-specific search: ragged ends of fully specific peptides
                 for p in cand[:4]:
                     q = p[rng.randint(1, 2):] if rng.random() < 0.5 else p[: -rng.randint(1, 2)]
                     if len(q) >= 5:
-                        rows.append(_row(rng, inp, q, own[p], PEP_GRID))
+                        rows.append(_row(rng, inp, q, own[p], PEP_GRID, st))
             for m in others:  # peptides only another file's parameters produce
                 extra = sorted(set(m) - set(own))
                 rng.shuffle(extra)
                 for p in extra[: rng.randint(0, 3)]:
-                    rows.append(_row(rng, inp, p, m[p], PEP_GRID))
+                    rows.append(_row(rng, inp, p, m[p], PEP_GRID, st))
             if rng.random() < 0.3:  # a peptide the database does not contain
-                rows.append(_row(rng, inp, "".join(rng.choice(gen_cli.CORE) for _ in range(8)) + "K", ["P1"], PEP_GRID))
-            if rng.random() < 0.15 and rows and inp == "mq":
+                rows.append(_row(rng, inp, "".join(rng.choice(gen_cli.CORE) for _ in range(8)) + "K", ["P1"], PEP_GRID, st))
+            # a row without a PEP: MaxQuant's empty cell; the literal `nan` where the file is written by props.C10.render
+            if rng.random() < 0.15 and rows and (inp == "mq" or (wide and (inp != "perc" or st["mokapot"]))):
                 rows.append(dict(rows[0], score="nan"))
             rng.shuffle(rows)
             files.append(rows)
         case["evidence"][inp] = files
+    if wide:
+        case["mokapot"] = styles          # header style per --perc_evidence file, by position
+        case["colseed"] = rng.randint(0, 10 ** 6)
     # --- file names and their order on the command line (the tool must pair the i-th file MENTIONED with the i-th
     # parameter set, whatever the files are called); 10 % of the multi-file inputs mention one file twice
     names = {"fasta": gen_cli.file_names(rng, len(fasta), "fasta")}
@@ -336,9 +383,69 @@ def gen_case(rng, tier, only_inputs=("mq", "perc")):
             src, dst = rng.sample(range(len(files)), 2)
             nm[dst] = nm[src]
             files[dst] = [dict(r) for r in files[src]]
+            if inp == "perc" and case.get("mokapot"):
+                case["mokapot"][dst] = case["mokapot"][src]
         names[inp] = nm
     case["names"] = names
+    # --- the maps by file instead of (or next to) --fasta.  The evidence above was drawn from the digest of the generated
+    # database; a map FILE holds that digest's dict (one file per parameter set), so the database itself need not be given
+    if maps_from in ("mapfile", "both"):
+        lines = [map_lines(rng, m) for m in maps]
+        if maps_from == "both":  # --fasta wins; the files map every peptide to proteins no FASTA record carries
+            lines = [[[pep, ["MAPFILE_" + q for q in ps]] for pep, ps in ls] for ls in lines]
+        case["map_files"] = lines
+        names["map"] = gen_cli.file_names(rng, len(lines), "map")
+    if maps_from in ("mapfile", "none"):
+        case["fasta"] = []
+        names["fasta"] = []
+    case["maps_from"] = maps_from
     return case
+
+
+def map_lines(rng, m):
+    """the lines of a --peptide_protein_map file for the dict m: `[peptide, [protein...]]` in dict order; now and then a
+    peptide's proteins are split over two lines (the reader appends: `defaultdict(list)`)"""
+    out, late = [], []
+    for pep, prots in m.items():
+        prots = list(prots)
+        if len(prots) >= 2 and rng.random() < 0.1:
+            cut = rng.randint(1, len(prots) - 1)
+            out.append([pep, prots[:cut]])
+            late.append([pep, prots[cut:]])
+        else:
+            out.append([pep, prots])
+    for x in late:
+        out.insert(rng.randint(0, len(out)), x)
+    # (a second half inserted in front of the first one swaps the halves of the protein list and moves the peptide's
+    #  place in the dict: map_dict reads the lines as they stand)
+    return out
+
+
+def map_text(lines):
+    """the text of a map file as csv.writer(delimiter TAB) writes it: `peptide TAB p1;p2 CRLF`"""
+    buf = io.StringIO(newline="")
+    w = csv.writer(buf, delimiter="\t")
+    for pep, prots in lines:
+        w.writerow([pep, ";".join(prots)])
+    return buf.getvalue()
+
+
+def map_dict(lines):
+    """what the lines of a map file say: peptide -> proteins, appended line by line, peptides in the order of their first line"""
+    d = {}
+    for pep, prots in lines:
+        d.setdefault(pep, []).extend(prots)
+    return d
+
+
+def run_maps(case, rule=None):
+    """the peptide->protein maps of the command line, one per parameter set / map file, as the documentation of the two flags
+    describes them: --fasta (own digestion, identifier rule of the run) if given, else the --peptide_protein_map files"""
+    if case["fasta"]:
+        if rule is None:
+            rule = id_rule(case["flags"], falls_back_to_pseudo_genes(case))
+        return [truth_map(case, ps, rule) for ps in case["psets"]]
+    return [map_dict(ls) for ls in case.get("map_files") or []]
 
 
 DUP_FASTA_SHARE = 0.05
@@ -367,6 +474,8 @@ def sync_mentions(case):
             out["fasta"] = files
         elif key in case["evidence"]:
             out["evidence"][key] = files
+        if key == "perc" and case.get("mokapot") and len(case["mokapot"]) == len(nm):
+            out["mokapot"] = [case["mokapot"][first[n]] for n in nm]
     return out
 
 
@@ -375,16 +484,42 @@ def input_names(case, key, n):
     names = (case.get("names") or {}).get(key)
     if names and len(names) == n:
         return list(names)
-    return [{"fasta": "db%d.fasta", "mq": "evidence%d.txt", "perc": "pout%d.txt"}[key] % i for i in range(n)]
+    return [{"fasta": "db%d.fasta", "mq": "evidence%d.txt", "perc": "pout%d.txt", "fragpipe": "psm%d.tsv", "sage": "results%d.sage.tsv",
+             "diann": "report%d.tsv", "map": "map%d.tsv"}[key] % i for i in range(n)]
 
 
-def _row(rng, inp, pep, prots, grid):
+def _row(rng, inp, pep, prots, grid, style=None):
+    """one PSM row of an input file of type `inp` for peptide `pep`, in the cells the format's parser reads (the row shape
+    of props.C10 / Model/C10.lean RawRow; MaxQuant rows carry the `Leading razor protein` cell as "razor_prot").
+    `grid`: the PEP grid of the MaxQuant / Percolator rows — its length says whether strong scores may be drawn."""
     tprots = [q for q in prots if not q.startswith("REV__")] or list(prots)
     tprots = list(dict.fromkeys(tprots))
-    score = rat(float(rng.choice(grid)))
+    strong = len(grid) > 12
     if inp == "mq":
+        score = rat(float(rng.choice(grid)))
         return {"pep": "_" + _spell(rng, pep) + "_", "score": score, "prot": [";".join(tprots)], "razor_prot": tprots[0]}
-    return {"pep": "-." + _spell(rng, pep) + ".-", "score": score, "prot": tprots}
+    if inp == "perc":
+        st = style or {"mokapot": False, "flank": True}
+        score = rat(float(rng.choice(grid)))
+        cell = _spell(rng, pep)
+        cell = "-." + cell + ".-" if st["flank"] else cell
+        if st["mokapot"]:  # one `Proteins` cell, tab-separated (written quoted by csv.writer)
+            return {"pep": cell, "score": score, "prot": ["\t".join(tprots)]}
+        return {"pep": cell, "score": score, "prot": tprots}
+    if inp == "fragpipe":
+        mod = _spell(rng, pep)
+        return {"pep": pep, "mod": "" if (mod == pep and rng.random() < 0.7) else mod,
+                "score": rat(float(rng.choice(FRAG_P if strong else FRAG_P_WEAK))), "prot": [tprots[0], ", ".join(tprots[1:])]}
+    if inp == "sage":
+        return {"pep": _spell(rng, pep), "score": rat(float(rng.choice(SAGE_X if strong else SAGE_X_WEAK))), "prot": [";".join(tprots)]}
+    if inp == "diann":
+        import props.C10 as c10
+
+        g = c10.PEP_GRID if strong else [x for x in c10.PEP_GRID if x >= 1e-3]
+        decoy = all(q.startswith("REV__") for q in tprots)  # Protein.Ids carries no decoy prefix: the Decoy cell says it
+        ids = [q[len("REV__"):] for q in tprots] if decoy else tprots
+        return {"pep": _spell(rng, pep), "score": rat(float(rng.choice(g))), "prot": [";".join(ids)], "decoy": decoy}
+    raise ValueError(inp)
 
 
 # ------------------------------------------------------------------------------------------------
@@ -392,6 +527,42 @@ def _row(rng, inp, pep, prots, grid):
 # ------------------------------------------------------------------------------------------------
 def _cell(score):
     return "" if score == "nan" else repr(pl.fl(score))
+
+
+def file_format(case, inp, k):
+    """the format of the k-th file of an input: "maxquant" | "native" | "mokapot" | "fragpipe" | "sage" | "diann" """
+    if inp == "mq":
+        return "maxquant"
+    if inp == "perc":
+        mk = case.get("mokapot") or []
+        return "mokapot" if (k < len(mk) and mk[k]) else "native"
+    return inp
+
+
+_REP = {}
+
+
+def _rep_method(fmt):
+    """a shipped method that reads files of the format (props.C10.render picks its renderer by the method's score type)"""
+    import props.C10 as c10
+
+    key = (str(lib.REPO), fmt)
+    if key not in _REP:
+        _REP[key] = next(names[0] for st, names in c10.shipped_classes().items() if c10.fmt_of(st, fmt == "mokapot")[0] == fmt)
+    return _REP[key]
+
+
+def _c10_write(path, fmt, rows, colseed):
+    """one input file through the renderer of props.C10 (imported, not copied)"""
+    import props.C10 as c10
+
+    d, name = os.path.split(path)
+    os.makedirs(d, exist_ok=True)
+    sub = {"method": _rep_method(fmt), "mokapot": fmt == "mokapot", "colseed": colseed, "names": [name],
+           "files": [[dict(r, mod=r.get("mod", ""), decoy=bool(r.get("decoy"))) for r in rows]]}
+    got = c10.render(sub, d)
+    if got != [path]:
+        raise ValueError("harness: props.C10.render wrote %r, expected %r" % (got, path))
 
 
 def render(case, d):
@@ -416,7 +587,12 @@ def render(case, d):
         argv += ["--fasta"] + fastas
     for inp, files in case["evidence"].items():
         paths = []
-        for rel, rows in zip(input_names(case, inp, len(files)), files):
+        for k, (rel, rows) in enumerate(zip(input_names(case, inp, len(files)), files)):
+            fmt = file_format(case, inp, k)
+            if fmt not in ("maxquant", "native"):
+                # mokapot-style Percolator, FragPipe, Sage, DIA-NN: the renderers of props.C10 (column order drawn from colseed)
+                paths.append(put(inp, rel, rows, lambda p, fmt=fmt, rows=rows, k=k: _c10_write(p, fmt, rows, case.get("colseed", 0) + k)))
+                continue
             if inp == "mq" and case.get("quant"):
                 hdr, out = quant_evidence_table(case, rows)
             elif inp == "mq":
@@ -433,6 +609,14 @@ def render(case, d):
                     w.writerows(out)
             paths.append(put(inp, rel, rows, we))
         argv += [FLAG_OF_INPUT[inp]] + paths
+    if case.get("map_files"):
+        paths = []
+        for rel, lines in zip(input_names(case, "map", len(case["map_files"])), case["map_files"]):
+            def wm(p, lines=lines):
+                with open(p, "w", newline="", encoding="utf-8") as fh:
+                    fh.write(map_text(lines))
+            paths.append(put("map", rel, lines, wm))
+        argv += ["--peptide_protein_map"] + paths
     argv += ["--methods", ",".join(case["methods"])]
     argv += ["--protein_group_fdr_threshold", repr(pl.fl(case["thr"])), "--psm_fdr_cutoff", repr(pl.fl(case["psm"]))]
     f = case["flags"]
@@ -481,6 +665,11 @@ def run_impl(case):
     from picked_group_fdr.results import ProteinGroupResults
     from picked_group_fdr.writers import base as wbase
 
+    if "sage" in case["evidence"] or "diann" in case["evidence"]:
+        import props.C10 as c10
+
+        if ("sage" in case["evidence"] and not c10.pow_grid_ok()) or ("diann" in case["evidence"] and not c10.pandas_grid_ok()):
+            raise RuntimeError("harness: the platform's pow / pandas' float parser is not correctly rounded on the generated grid")
     d = tempfile.mkdtemp(prefix="pgfdr_cli_")
     work, outdir = os.path.join(d, "work"), os.path.join(d, "out")
     os.makedirs(work)
@@ -700,10 +889,15 @@ def model_request(case, impl_out):
     for k, _ in DIG_FLAGS:
         if f.get(k):
             req[k] = [x if isinstance(x, int) else str(x) for x in f[k]]
-    for inp in ("mq", "perc"):
+    for inp in ALL_INPUTS:
         if inp in case["evidence"]:
-            req[inp] = [[{"pep": r["pep"], "score": r["score"], "prot": r["prot"], "razor_prot": r.get("razor_prot", "")} for r in rows]
+            req[inp] = [[{"pep": r["pep"], "mod": r.get("mod", ""), "score": r["score"], "prot": r["prot"], "decoy": bool(r.get("decoy")),
+                          "razor_prot": r.get("razor_prot", "")} for r in rows]
                         for rows in case["evidence"][inp]]
+    if case.get("mokapot"):
+        req["mokapot_files"] = [bool(x) for x in case["mokapot"]]
+    if case.get("map_files"):
+        req["pep_map_files"] = [map_text(lines) for lines in case["map_files"]]
     if case.get("quant"):
         req["op"] = "cli_quant"
         req["do_quant"] = True
@@ -752,46 +946,81 @@ def model_view(case, resp, impl_out):
 # ------------------------------------------------------------------------------------------------
 # the property, stated directly on what the real run produced
 # ------------------------------------------------------------------------------------------------
+def row_peptide(fmt, r, flank):
+    """the (still modified) peptide a row of the format spells"""
+    if fmt == "maxquant":
+        return r["pep"][1:-1]
+    if fmt in ("native", "mokapot"):
+        return r["pep"][2:-2] if flank else r["pep"]
+    if fmt == "fragpipe":
+        return r.get("mod") or r["pep"]
+    return r["pep"]
+
+
+def row_file_proteins(fmt, r, razor=False):
+    """the protein list a row of the format carries (format descriptions of the five tools, DIA-NN's `Decoy` cell)"""
+    if fmt == "maxquant":
+        return (r["razor_prot"] if razor else r["prot"][0]).split(";")
+    if fmt == "native":
+        return list(r["prot"])
+    if fmt == "mokapot":
+        return r["prot"][0].split("\t")
+    if fmt == "fragpipe":
+        return [r["prot"][0]] + (r["prot"][1].split(", ") if r["prot"][1] else [])
+    ps = r["prot"][0].split(";")
+    if fmt == "diann" and r.get("decoy"):
+        ps = ["REV__" + q for q in ps]
+    return ps
+
+
+def row_pep(fmt, r):
+    """the posterior error probability of a row as the double the tool holds (None: no number): FragPipe reports the
+    probability of being CORRECT (1 - p, + 1e-16), Sage log10 of the PEP"""
+    if r["score"] == "nan":
+        return None
+    x = pl.fl(r["score"])
+    if fmt == "fragpipe":
+        x = 1 - x + 1e-16
+    elif fmt == "sage":
+        x = float(Fraction(10) ** int(x))
+    return Fraction(x)
+
+
 def expected_pil(case, name):
-    """independent statement of ingestion: best PSM per peptide through the matching digest"""
+    """independent statement of ingestion: best PSM per peptide through the matching digest / map file"""
     t = shipped()[name]
     inp = input_of(t)
     files = case["evidence"].get(inp)
     if not files:
         return None
     psets = case["psets"]
-    if any(ps["digestion"] != "full" for ps in psets):
-        return None
-    use_pseudo = falls_back_to_pseudo_genes(case)
-    rule = id_rule(case["flags"], use_pseudo)
     if remaps(t):
-        maps = [truth_map(case, ps, rule) for ps in psets]
+        if case["fasta"] and any(ps["digestion"] != "full" for ps in psets):
+            return None
+        maps = run_maps(case)
         if len(maps) == 1:
             maps = maps * len(files)
     else:
         maps = [None] * len(files)
-    import re
-
+    razor = t.get("sharedPeptides") == "razor"
     d = {}
-    for rows, m in zip(files, maps):
+    for k, (rows, m) in enumerate(zip(files, maps)):
+        fmt = file_format(case, inp, k)
+        flank = bool(rows) and rows[0]["pep"].startswith("-.") and rows[0]["pep"].endswith(".-")
         for r in rows:
-            cell = r["pep"]
-            mod = cell[1:-1] if inp == "mq" else (cell[2:-2] if rows[0]["pep"].startswith("-.") and rows[0]["pep"].endswith(".-") else cell)
-            pep = re.sub(r"\[[^]]*\]", "", re.sub(r"\([^)]*\)", "", mod)).replace(")", "")
+            pep = strip_mods(row_peptide(fmt, r, flank))
             if m is not None:
                 prots = list(m.get(pep, []))
                 if not prots:
                     continue
             else:
-                prots = r["prot"][0].split(";") if inp == "mq" else list(r["prot"])
-                if inp == "mq" and t.get("sharedPeptides") == "razor":
-                    prots = r["razor_prot"].split(";")
+                prots = row_file_proteins(fmt, r, razor)
             decoy = lambda p: p.startswith("REV__") or p.startswith("rev_")  # noqa: E731
             if not (all("REV__" in p for p in prots) or all("rev_" in p for p in prots)):
                 prots = [p for p in prots if not decoy(p)]
-            if not prots or r["score"] == "nan":
+            s = row_pep(fmt, r)
+            if not prots or s is None:
                 continue
-            s = unrat(r["score"])
             if pep in d and d[pep][0] <= s:
                 continue
             d[pep] = [s, prots]
@@ -824,6 +1053,10 @@ def universe(case):
             i = digest_id(hdr, gen, rule)
             if i:
                 out.add(i)
+    if not case["fasta"]:  # the maps come from --peptide_protein_map files: the identifiers those files list
+        for lines in case.get("map_files") or []:
+            for _, prots in lines:
+                out.update(prots)
     return out
 
 
@@ -994,10 +1227,11 @@ def statement_oracle(case, impl_out, statements):
 
 def _file_proteins(case, t):
     out = set()
-    for rows in case["evidence"].get(input_of(t), []):
+    inp = input_of(t)
+    for k, rows in enumerate(case["evidence"].get(inp, [])):
+        fmt = file_format(case, inp, k)
         for r in rows:
-            for p in (r["prot"][0].split(";") if input_of(t) == "mq" else r["prot"]):
-                out.add(p)
+            out.update(row_file_proteins(fmt, r))
             if r.get("razor_prot"):
                 out.add(r["razor_prot"])
     return out
@@ -1016,10 +1250,16 @@ def _first_diff(want, got):
 
 def describe(case):
     f = case["flags"]
+    maps = " ".join(input_names(case, "fasta", len(case["fasta"]))) if case["fasta"] else "(none)"
+    if case.get("map_files"):
+        maps += "; --peptide_protein_map " + " ".join(input_names(case, "map", len(case["map_files"])))
+    if any(case.get("mokapot") or []):
+        maps += "; mokapot-style Percolator files: %s" % " ".join(
+            n for n, mk in zip(input_names(case, "perc", len(case["mokapot"])), case["mokapot"]) if mk)
     return "--methods %s [%s; --fasta %s; %s; digestion flags %r]" % (
         ",".join(case["methods"]),
         ", ".join("%s %s" % (FLAG_OF_INPUT[k], " ".join(input_names(case, k, len(v)))) for k, v in case["evidence"].items()),
-        " ".join(input_names(case, "fasta", len(case["fasta"]))),
+        maps,
         " ".join(k for k in ("contains_decoys", "gene_level", "use_uniprot") if f.get(k)) or "default ids",
         {k: f[k] for k, _ in DIG_FLAGS if f.get(k)})
 
@@ -1039,6 +1279,16 @@ def features(case, impl_out):
         f.append("cli_model:semi_specific")
     for k, v in case["evidence"].items():
         f.append("cli_model:%s_files=%d" % (k, len(v)))
+        for i, rows in enumerate(v):
+            f.append("cli_model:format=" + file_format(case, k, i))
+            if k == "perc" and rows:
+                f.append("cli_model:perc_flanks=%s" % (rows[0]["pep"].startswith("-.") and rows[0]["pep"].endswith(".-")))
+    if len(case["evidence"]) > 1:
+        f.append("cli_model:input_types=" + "+".join(sorted(case["evidence"])))
+    if len(set(case.get("mokapot") or [])) > 1:
+        f.append("cli_model:native_and_mokapot_files_in_one_run")
+    f.append("cli_model:maps_from=" + ("fasta+mapfile" if case["fasta"] and case.get("map_files") else "fasta" if case["fasta"]
+                                       else "mapfile" if case.get("map_files") else "none"))
     for k in ("contains_decoys", "gene_level", "use_uniprot"):
         if case["flags"].get(k):
             f.append("cli_model:" + k)
@@ -1074,6 +1324,12 @@ def _shrink(case):
     if len(case["methods"]) > 1:
         for i in range(len(case["methods"])):
             yield dict(case, methods=case["methods"][:i] + case["methods"][i + 1:])
+    read = {input_of(shipped()[n]) for n in case["methods"] if n in shipped()}
+    if any(k not in read for k in case["evidence"]):  # input files no method of the run reads
+        c = dict(case, evidence={k: v for k, v in case["evidence"].items() if k in read})
+        if "perc" not in read and case.get("mokapot"):
+            c["mokapot"] = []
+        yield c
     names = case.get("names") or {}
     for inp, files in case["evidence"].items():
         nm = names.get(inp)
@@ -1082,6 +1338,8 @@ def _shrink(case):
                 c = dict(case, evidence=dict(case["evidence"], **{inp: files[:i] + files[i + 1:]}))
                 if nm:
                     c["names"] = dict(names, **{inp: nm[:i] + nm[i + 1:]})
+                if inp == "perc" and case.get("mokapot"):
+                    c["mokapot"] = case["mokapot"][:i] + case["mokapot"][i + 1:]
                 yield c
         for i, rows in enumerate(files):
             if nm and nm[i] in nm[:i]:
@@ -1090,6 +1348,13 @@ def _shrink(case):
                 yield dict(case, evidence=dict(case["evidence"], **{inp: files[:i] + [rows[:j] + rows[j + 1:]] + files[i + 1:]}))
     if case["keepAll"]:
         yield dict(case, keepAll=False)
+    if any(case.get("mokapot") or []):  # does the header style matter?  the same Percolator rows in native files
+        c = dict(case, mokapot=[False] * len(case["mokapot"]), evidence=dict(case["evidence"]))
+        c["evidence"]["perc"] = [[dict(r, prot=r["prot"][0].split("\t")) for r in rows if r["score"] != "nan"] if mk else rows
+                                 for rows, mk in zip(case["evidence"]["perc"], case["mokapot"])]
+        yield c
+    if case.get("map_files") and case["fasta"]:
+        yield {k: v for k, v in case.items() if k != "map_files"}
     if names:
         # do the names matter?  numbered names in the order of mention (evidence0.txt, evidence1.txt, ...); a file
         # mentioned twice becomes two files of equal content
